@@ -33,7 +33,7 @@ ASSUMPTIONS = ['the release points are wrappers on Expecter.existing_data / new_
                'reproduce in two further serial runs',
                '_async_pre_await.py is not importable on this interpreter and is not exercised']
 REQUIRED = ['histories', 'byte_cut_histories', 'pty_histories', 'calls_compared', 'awaited_calls', 'blocking_calls', 'mixed_objects', 'eof_calls', 'timeout_calls',
-            'prewritten_units', 'timeout0_subchecks', 'async_model_calls', 'async_model_abandoned_awaits',
+            'prewritten_units', 'timeout0_subchecks', 'pty_last_piece_with_exit', 'async_model_calls', 'async_model_abandoned_awaits',
             'async_model_idle_chunks']
 
 T = 0.1
@@ -346,7 +346,43 @@ def gen_case(rng):
             last['units'][-1] = [last['units'][-1], 'EOF']
         else:
             last['units'].append('EOF')
+        if rng.random() < 0.5:
+            # one more call after the stream has ended: when the previous call matched inside the last data, this is
+            # the call that has to report EOF (with the rest as before)
+            kind = rng.choice(['expect', 'expect_exact', 'expect_list'])
+            pats = [p for p in G.rand_pats(rng, 'x' if kind == 'expect_exact' else 're', 3)
+                    if not (isinstance(p, dict) and p.get('c'))] or ['EOF']
+            calls.append({'op': kind, 'pats': pats, 'units': [], 'pre': [], 'W': rng.choice([-1, -1, None, 4])})
     return {'enc': enc, 'calls': calls, 'mixed': [rng.choice(['sync', 'async']) for _ in calls]}
+
+
+def gen_pty_tail(rng):
+    """pty children whose last piece of output comes together with their exit: the call that picks the piece up
+    matches inside it, and one more call follows (it has to report EOF with the rest as before)"""
+    import re as _re
+    enc = rng.choice([None, 'utf-8'])
+    text = G.rand_text(rng, rng.randint(3, 20))
+    if enc is None:
+        text = text.replace('\xe9', 'e')
+    k = rng.randint(0, len(text) - 2)
+    head, tail = text[:k], text[k:]
+    calls = []
+    for pc in [p for p in G.rand_cuts(rng, head, 2) if p]:
+        kind = rng.choice(['expect', 'expect_exact', 'expect_list'])
+        pats = [p for p in G.rand_pats(rng, 'x' if kind == 'expect_exact' else 're', 3)
+                if not (isinstance(p, dict) and p.get('c'))] or ['TIMEOUT']
+        calls.append({'op': kind, 'pats': pats, 'units': [pc], 'pre': [], 'W': -1})
+    a = rng.randint(0, len(tail) - 1)
+    sub = tail[a:a + rng.randint(1, 2)]
+    kind = rng.choice(['expect', 'expect_exact', 'expect_list'])
+    calls.append({'op': kind, 'pats': [{'x': sub}] if kind == 'expect_exact' else [{'re': _re.escape(sub)}],
+                  'units': [[tail, 'EOF']], 'pre': [], 'W': rng.choice([-1, -1, None, 100])})
+    kind = rng.choice(['expect', 'expect_exact', 'expect_list'])
+    pats = [p for p in G.rand_pats(rng, 'x' if kind == 'expect_exact' else 're', 2)
+            if not (isinstance(p, dict) and p.get('c'))] + rng.choice([[], ['EOF'], ['TIMEOUT', 'EOF']])
+    calls.append({'op': kind, 'pats': pats or ['EOF'], 'units': [], 'pre': [], 'W': -1})
+    return {'enc': enc, 'pty': True, 'pty_last_piece_with_exit': True, 'calls': calls,
+            'mixed': [rng.choice(['sync', 'async']) for _ in calls]}
 
 
 def one(case, acc):
@@ -358,6 +394,8 @@ def one(case, acc):
     enc = case['enc']
     loop = asyncio.new_event_loop()
     asyncio.set_event_loop(loop)
+    if case.get('pty_last_piece_with_exit'):
+        acc.count('pty_last_piece_with_exit')
     if case.get('pty'):
         acc.count('pty_histories')
         twins = [PtyTwin(enc, 'blocking'), PtyTwin(enc, 'awaited'), PtyTwin(enc, 'mixed')]
@@ -499,7 +537,9 @@ def run_shard(spec, acc):
     rng = G.rng_for(spec['seed'], spec['shard'], 14)
     for i in range(spec['n']):
         case = gen_case(rng)
-        if i % 12 == 5 or os.environ.get('PVMON_C14_ALLPTY'):
+        if i % 12 == 11:
+            case = gen_pty_tail(rng)
+        elif i % 12 == 5 or os.environ.get('PVMON_C14_ALLPTY'):
             # a subset on real pty children (EOF = exit, connection_lost(EIO) on the asyncio side).  A pty hands
             # over one written piece per os.read; the blocking path assembles several available pieces in one
             # read_nonblocking while the event loop delivers them one by one, so "the same read splitting" only
@@ -510,5 +550,10 @@ def run_shard(spec, acc):
                 for u in list(call.get('pre', [])) + list(call['units']):
                     flat.extend(u if isinstance(u, list) else [u])
                 call['pre'] = []
+                if len(flat) >= 2 and flat[-1] == 'EOF' and flat[-2] != 'EOF' and (i // 12) % 2 == 0:
+                    # the child's last piece and its exit together: a blocking read that picks up the piece also
+                    # runs into the end of the pty (and keeps that to itself until the next call)
+                    flat = flat[:-2] + [[flat[-2], 'EOF']]
+                    case['pty_last_piece_with_exit'] = True
                 call['units'] = flat
         confirmed(case, guarded, acc)
